@@ -193,8 +193,8 @@ def run_routes(case, rec):
         per_route.setdefault(route, []).append(op)
     k = case.get("pick", 0)
     attempts = 0
-    for route, ops in sorted(per_route.items()):
-        op = ops[k % len(ops)]
+    for route, ops_ in sorted(per_route.items()):
+      for op in (ops_ if case.get("all_ops") else [ops_[k % len(ops_)]]):
         plan = eng.plan(op)
         if plan.status != "refuse" or not plan.route.endswith(":collision"):
             # the constructed op is not a pure collision in this state (e.g. it is also invalid otherwise)
@@ -333,7 +333,7 @@ def hyp_routes(draw, tier):
         # directed: clones nested in each other whose un-nested (grand)children collide one or two levels up
         g, x = draw(st.sampled_from([("e", "f"), ("a", "b"), ("c", "d")]))
         inner = [g, [[x, []]]] if draw(st.booleans()) else [g, [[g, [[x, []]]]]]
-        variant = draw(st.sampled_from(["two-levels-up", "inner-sibling", "indirectly-nested", "inner-is-older", "inner-is-older", "look-alike-ids", "look-alike-ids"]))
+        variant = draw(st.sampled_from(["two-levels-up", "inner-sibling", "inner-sibling", "indirectly-nested", "inner-is-older", "inner-is-older", "look-alike-ids", "look-alike-ids"]))
         if variant == "look-alike-ids":
             # un-nesting puts a clone (explicit id 7) next to its twin, with a node whose id is the STRING "7" between
             k = draw(st.sampled_from([7, 0, 42]))
@@ -408,11 +408,41 @@ RULE_ROUND8 = ' One generated forest in 20 (60 in the thorough tier) is a BIG on
 RULE = RULE + RULE_ROUND8
 
 RULE_ROUND9 = " Directed route patterns: nested clones whose INNER one is the older node (created first, moved below a younger clone), and an int data_id next to its string look-alike (7, '7', 7) in the child list that an un-nesting would produce."
-RULE = RULE + RULE_ROUND9
+RULE = RULE + RULE_ROUND9 + " Part directed-un-nest-patterns: the nested-clone and look-alike patterns once each (top level and below a host), every colliding operation tried. Part big-trees: 1-4 operations on a big tree (incl. forests of many clones with the directed operations 'the first clone leaves, the same data comes back below the tree / below a parent whose last child carries it / in front of such a child')."
+
+def directed_unnest_cases(tier):
+    """the nested-clone / look-alike patterns of the routes part, each once, at the top level and below a host node,
+    with EVERY colliding operation the harness can construct tried (not a generated pick)"""
+    g, x = "a", "b"
+    pats = {
+        "inner-sibling": ([[g, [[g, [[x, []], ["a1", []]]], [x, []]]]], []),
+        "two-levels-up": ([[g, [[g, [[x, []]]], ["a1", []]]], [x, []]], []),
+        "two-levels-up-deep": ([[g, [[g, [[g, [[x, []]]]]], ["a1", []]]], [x, []]], []),
+        "indirectly-nested": ([[g, [["m1", [[g, [[x, []]]], [x, []]]]]]], []),
+        "inner-is-older": ([[g, [[x, []]]], ["zz", [[g, []], [x, []]]]], [["move", 0, 3, None]]),
+        "look-alike-ids": ([["zz", [["q3", [], {"id": 7}], ["q4", [["q5", [], {"id": "7"}], ["q3", [], {"id": 7}]]]]]], []),
+    }
+    for name, (spec, ops) in pats.items():
+        yield {"pattern": name, "spec": spec, "spec2": [], "typed": False, "ops": ops, "pick": 0, "all_ops": True}
+        if not ops:
+            yield {"pattern": name + "/hosted", "spec": [["h0", []], ["host", spec]], "spec2": [], "typed": False, "ops": [], "pick": 0, "all_ops": True}
+
+
+@st.composite
+def big_histories(draw, tier):
+    """short histories on a BIG tree (gen.big_specs: also that many clones of one data object, with the directed
+    'first clone leaves, the same data comes back' operations of gen_ops.histories)"""
+    case = draw(gen_ops.histories(typed=draw(st.sampled_from([False, False, True])), max_ops=4, min_ops=1, big=1,
+                                  kinds=["add", "add", "add_node", "prepend_sibling", "set_data", "move", "remove", "copy_to"]))
+    case["flavour"] = "str"
+    return case
+
 
 PARTS = [
     Part("histories", run_histories, strategy=hyp_histories, n={"quick": 600, "thorough": 100000}),
     Part("routes", run_routes, strategy=hyp_routes, n={"quick": 600, "thorough": 100000}),
+    Part("directed-un-nest-patterns", run_routes, enum=directed_unnest_cases),
+    Part("big-trees", run_histories, strategy=big_histories, n={"quick": 240, "thorough": 10000}),
     Part("documents", run_documents, strategy=hyp_documents, n={"quick": 200, "thorough": 30000}),
     optimized_part("C03", ['histories', 'routes']),
 ]
